@@ -70,6 +70,7 @@ KINDS = {
     "gz": "/z.txt.gz",
     "notfound": "/no-such-thing",
     "gophermap": "/gm",
+    "stale-links": "/stale",
     "url": "URL:http://example.org/x",
     "pyg": "/hello.pyg",
 }
@@ -139,6 +140,12 @@ def make_spec(bigsize=9000, nmsg=3, ndocs=4):
     for nm in ("photo.gif", "shot.jpg", "tool.bin", "sound.wav", "old.hqx", "paper.pdf", "page2.htm"):
         spec.append({"p": "docs/" + nm, "k": "file", "d": blob})
     spec.append({"p": "logo.png", "k": "file", "d": blob})
+    # stale metadata: link-file blocks about files that are gone
+    spec.append({"p": "stale", "k": "dir"})
+    spec.append({"p": "stale/kept.txt", "k": "file", "d": "kept\n"})
+    spec.append({"p": "stale/.names", "k": "file",
+                 "d": "Path=./gone.txt\nName=Gone but titled\nNumb=1\n\nPath=./hidden-and-gone\nType=X\n\n"
+                      "Path=./untitled-and-gone\nNumb=2\n"})
     spec.append({"p": "docs/sub", "k": "dir"})
     spec.append({"p": "docs/sub/deep.txt", "k": "file", "d": "deep\n"})
     spec.append({"p": "docs/empty.txt", "k": "file", "d": ""})
